@@ -138,6 +138,7 @@ type Prelude struct {
 	Lemmas   map[string]bool   // lemma_* macros defined
 	Unfolds  map[string]bool   // unfold_* macros generated
 	Autos    []string          // lemma names turned into axioms
+	AutoAx   map[string]string // lemma name -> axiom text (asserted in VCs only when the lemma is proved in the same run)
 }
 
 func BuildPrelude(src string) (*Prelude, error) {
@@ -145,7 +146,7 @@ func BuildPrelude(src string) (*Prelude, error) {
 	if err != nil {
 		return nil, err
 	}
-	p := &Prelude{Lemmas: map[string]bool{}, Unfolds: map[string]bool{}}
+	p := &Prelude{Lemmas: map[string]bool{}, Unfolds: map[string]bool{}, AutoAx: map[string]string{}}
 	var vc, rec strings.Builder
 	defs := map[string]*sexp{}
 	for _, tf := range forms {
@@ -173,7 +174,7 @@ func BuildPrelude(src string) (*Prelude, error) {
 					body = "(! " + body + " " + pat + ")"
 				}
 				ax := fmt.Sprintf("(assert (forall %s %s))\n", params.String(), body)
-				vc.WriteString(ax)
+				p.AutoAx[name] += ax
 				p.Autos = append(p.Autos, name)
 			}
 			continue
